@@ -283,7 +283,8 @@ def run_all(exe, items, nproc=6, timeout=600, env=None):
                 got_all[nme] = res[nme]
             culprit = order[-1] if order else f"{pending[0][0]['name']}#{pending[0][1]}"
             got_all[culprit] = res.get(culprit, [])
-            bad[culprit] = "timeout" if rc == -9 else f"rc={rc}\n{err[-6000:]}"
+            k = err.find("ERROR: AddressSanitizer")
+            bad[culprit] = "timeout" if rc == -9 else f"rc={rc}\n" + (err[max(0, k - 12):k + 7000] if k >= 0 else err[-6000:])
             dn = set(done) | {culprit}
             pending = [(c, md) for c, md in pending if f"{c['name']}#{md}" not in dn]
         return got_all, bad
@@ -460,7 +461,7 @@ def run(replay=None):
                 continue
             asan["aborts"] += 1
             cfg = c["meta"]["api"]
-            m = re.search(r"ERROR: AddressSanitizer: (\S+)", cb)
+            m = re.search(r"ERROR: AddressSanitizer: (\S+)", cb) or re.search(r"SUMMARY: AddressSanitizer: (\S+)", cb)
             kind = m.group(1) if m else "crash"
             done = sum(1 for l in outs2.get(c["name"] + "#B") or [] if l.startswith("status ") or l.endswith(" done"))
             size = len(c["lines"]) * 1000
